@@ -33,6 +33,7 @@ class _Engine:
 
 def fake_transport(K, H, sid, h):
     t = bare(Transport, K=K, H=H, session_id=sid, kex_engine=_Engine(h), _logged_hash_selection=True)
+    t._log = lambda *a, **k: None
     return t
 
 
@@ -60,7 +61,30 @@ def sweep(seed, lengths=None):
     return dict(violates=False, evaluations=n)
 
 
+def rekey_with_another_hash(seed=5):
+    """ONE transport, several exchanges in a row whose kex methods use different hashes: every derivation uses the hash of
+    the exchange it belongs to"""
+    rnd = random.Random(seed)
+    t = fake_transport(rnd.getrandbits(255), b"H" * 32, b"S" * 32, hashlib.sha256)
+    n = 0
+    for h in (hashlib.sha256, hashlib.sha1, hashlib.sha512, hashlib.sha256, hashlib.sha384):
+        t.kex_engine = _Engine(h)
+        t.K = rnd.getrandbits(255)
+        t.H = bytes(rnd.getrandbits(8) for _ in range(h().digest_size))
+        for X in "ABCDEF":
+            for ln in (16, 32, 64):
+                n += 1
+                if t._compute_key(X, ln) != oracle(t.K, t.H, X.encode(), t.session_id, h, ln):
+                    return dict(violates=True, evaluations=n,
+                                detail="after a re-key to a method using %s, _compute_key(%r, %d) is not the RFC 4253 7.2 derivation with that hash"
+                                % (h().name, X, ln))
+    return dict(violates=False, evaluations=n)
+
+
 def replay_compute_key(inp):
+    r = rekey_with_another_hash()
+    if r["violates"]:
+        return r
     extra = [ival(inp, "nbytes", 0)] if 0 <= ival(inp, "nbytes", 0) < 5000 else []
     r = sweep(1)
     if r["violates"] or not extra:
